@@ -63,7 +63,8 @@ def generate(rng, tier):
         del frames[1:]
         nfr = 1
         frames[0]["geom"] = dict(frames[0]["geom"])
-        frames[0]["geom"]["tchans"], frames[0]["geom"]["fchans"] = rng.choice([(16, 131072), (20, 100000), (12, 200000), (33, 40000)])
+        frames[0]["geom"]["tchans"], frames[0]["geom"]["fchans"] = rng.choice([(16, 131072), (20, 100000), (12, 200000), (33, 40000),
+                                                                               (16, 524288), (16, 400000)])
         frames[0]["route"] = rng.choice(["sizes", "data"])
     for _ in range(rng.randint(1, 6) if not huge else rng.randint(1, 2)):
         fi = rng.randrange(nfr)
@@ -73,11 +74,23 @@ def generate(rng, tier):
         if huge:
             op["sig"]["opts"] = {}
             op["sig"]["f"]["kind"] = rng.choice(["sinc2", "lorentzian", "gaussian"])
-            op["bounding"] = {"kind": "inside", "a": rng.choice([0.01, 0.1]),
-                              "b": rng.choice([0.7, 0.9, 0.95])}
-            op["sig"]["path"]["idx"] = op["bounding"]["b"]
             if op["sig"]["path"]["kind"] == "rfi":
                 op["sig"]["path"]["kind"] = "constant"
+            if rng.random() < 0.5:
+                # a wide range with the signal at its upper edge
+                op["bounding"] = {"kind": "inside", "a": rng.choice([0.01, 0.1]), "b": rng.choice([0.7, 0.9, 0.95])}
+                op["sig"]["path"]["idx"] = op["bounding"]["b"]
+            else:
+                # a narrow range around a (possibly smeared, drifting) signal anywhere in the band: the bounded injection
+                # evaluates a small grid, the unbounded one it is compared with the whole frame
+                c = rng.choice([0.3, 0.76, 0.9])
+                op["bounding"] = {"kind": "inside", "a": c - 0.02, "b": c + 0.02}
+                op["sig"]["path"]["idx"] = c
+                op["sig"]["path"]["drift"] = rng.choice([1.0, -1.0, 3.0]) * g["df"] / g["dt"]
+                if op["sig"]["path"]["kind"] in ("scalar", "array"):
+                    op["sig"]["path"]["kind"] = "constant"
+                if rng.random() < 0.6:
+                    op["sig"]["opts"] = {"doppler_smearing": True, "smearing_subsamples": rng.choice([2, 5])}
         if rng.random() < 0.35:
             # randomised signal functions created without a seed, too
             for part in ("path", "t"):
